@@ -285,7 +285,7 @@ def simulate(ev, cap_ge_1=True):
     state is {"stream": "Some"|"None"|"?", "queue": "full"|"nonempty"|"empty"|"?", "up_pending": bool,
     "last_I": outcome|None}."""
     st = {"stream": "?", "queue": "?", "up_pending": False, "last_I": None, "polled_after_none": False,
-          "pushes_pending": 0}
+          "pushes_pending": 0, "up_ended": False}
     for e in ev:
         k = e[0]
         if k == "G":
@@ -306,6 +306,8 @@ def simulate(ev, cap_ge_1=True):
             st["stream"] = "Some"
             if e[1] == "Pending":
                 st["up_pending"] = True
+            if e[1] == "None":
+                st["up_ended"] = True
         elif k == "SETNONE":
             st["stream"] = "None"
         elif k == "PUSH":
